@@ -183,6 +183,11 @@ def run(ctx):
 
     jobs = []
     for dname, pname in expose.items():
+        if dname == "c05_relock_window" and not ops["relock_window"]:
+            # lockDuplicatedID locks srv.mu once: the window is not in the source, an exhaustive search of the two-connection
+            # pack for it is left to the green run of the thorough tier
+            ctx.notes.append("lockDuplicatedID has no unlock/lock window in the source (relock_window=False): no search for the C05 double registration")
+            continue
         jobs.append((("expose", dname), ps[pname], [], "faithful_" + dname))
     for pname in green:
         jobs.append((("green", pname), ps[pname], cl.ALL_DEVS, "all"))
